@@ -345,7 +345,7 @@ let run_path cxx id toks =
   | sep :: asg :: ops ->
     let sep = byte_of_hex sep and asg = byte_of_hex asg in
     let p = ref (path_init sep asg) in
-    let a = ref { aelems = []; apost = []; abin = false; asep = sep; aassign = asg; anull = true } in
+    let a = ref { aelems = []; apost = []; abin = false; asep = sep; aassign = asg; anull = true; astr = None } in
     let mt = Buffer.create 256 and st = Buffer.create 256 in
     let step o isset =
       let (p', r) = pstep !p o in
@@ -387,6 +387,8 @@ let run_path cxx id toks =
       | "fork" :: r -> forked := true; step PCopy false; go r
       | t :: _ -> failwith ("bad op " ^ t) in
     go ops;
+    (* kind P ends with mpt_path_fini: storage of the path's own is released exactly once *)
+    if not cxx then (Buffer.add_string mt " fin:ok"; Buffer.add_string st " fin:ok");
     Printf.printf "M %s%s\nS %s%s\n" id (Buffer.contents mt) id (Buffer.contents st)
   | _ -> ()
 
